@@ -111,7 +111,14 @@ def run_agg(case):
     try:
         summaries = [ErrorsSummary.from_lists([syms[i - 1] for i in r], [syms[i - 1] for i in h]) for r, h in case["pairs"]]
         rec["items"] = [summary_fields(s) for s in summaries]
-        rec["agg"] = summary_fields(ErrorsSummary.aggregate(summaries))
+        # "aggregating is plain addition" also for aggregates of aggregates (lines -> pages -> document): for every other
+        # case the first k summaries are aggregated first and the result aggregated with the rest
+        k = len(summaries) // 2 + 1
+        if len(summaries) >= 2 and sum(len(r) + len(h) for r, h in case["pairs"]) % 2 == 0:
+            nested = ErrorsSummary.aggregate(summaries[:k])
+            rec["agg"] = summary_fields(ErrorsSummary.aggregate([nested] + summaries[k:]))
+        else:
+            rec["agg"] = summary_fields(ErrorsSummary.aggregate(summaries))
     except Exception as ex:
         rec["agg"] = {"o": "exception:" + type(ex).__name__}
     return rec
